@@ -5,6 +5,7 @@ arithmetic of `blind_sign`, the generator prefix property and the index bookkeep
 `blind_proof_gen` / `blind_proof_verify`.
 -/
 import ZkProofs.Lemmas.Sig
+import ZkProofs.Lemmas.Index
 set_option linter.unusedSectionVars false
 set_option linter.unusedSimpArgs false
 set_option linter.unusedVariables false
@@ -459,6 +460,232 @@ theorem prepareParameters_eq (cs : Suite G1) (msgs cmsgs : List Bytes) (n k : Na
   unfold prepareParameters
   simp only [Option.getD_some, h1, h2, h3, h4]
   cases blind <;> rfl
+
+/-- The signer accepts an honest commitment: with the `M + 2` blind generators that `blind_sign`
+creates for a commitment over `M` messages, `deserialize_and_validate_commit` returns the
+commitment point. -/
+theorem deserialize_honest (hl : Lawful env pair) (cs : Suite G1) (cmsgs : Option (List Bytes))
+    (tape : List S) (c : Commitment S G1) (blind : S)
+    (h : commit env cs cmsgs tape = .ok (c, blind)) (bgens : Generators G1)
+    (hb : Generators.create env cs ((cmsgs.getD []).length + 2)
+      (some (Bytes.ofAscii "BLIND_" ++ cs.apiIdBlind)) = .ok bgens) :
+    deserializeAndValidateCommit env cs (some (c.toBytes env)) bgens (some cs.apiIdBlind)
+      = .ok c.commitment := by
+  obtain ⟨cms, bg, Q2, Js, hm, hg, hbg, hJ, hlen, hmc, hC, hv⟩ := commit_ok_inv cs cmsgs tape c blind h
+  have hp := create_prefix cs _ _ bgens hb ((cmsgs.getD []).length + 1) (by omega)
+  rw [hg] at hp
+  simp only [Res.ok.injEq] at hp
+  have hbl := (create_shape cs _ _ bgens hb).2
+  have hvals : bg.values = bgens.values.take (c.proof.mCap.length + 1) := by
+    rw [hp, hmc, hlen]
+  unfold deserializeAndValidateCommit
+  simp only [Option.getD_some]
+  rw [if_neg (by rw [commitment_toBytes_length hl]; omega), commitment_roundtrip hl]
+  simp only
+  rw [if_neg (by omega), coreCommitVerify_take cs _ _ _ _ (by omega), ← hvals, hv]
+
+/-! ### index bookkeeping of `blind_proof_gen` / `blind_proof_verify` -/
+
+/-- Strictly ascending lists with the same members are equal. -/
+theorem strict_sorted_ext {l₁ l₂ : List Nat} (h₁ : l₁.Pairwise (· < ·)) (h₂ : l₂.Pairwise (· < ·))
+    (h : ∀ i, i ∈ l₁ ↔ i ∈ l₂) : l₁ = l₂ := by
+  have n₁ : l₁.Nodup := h₁.imp (fun h => Nat.ne_of_lt h)
+  have n₂ : l₂.Nodup := h₂.imp (fun h => Nat.ne_of_lt h)
+  have hp : l₁.Perm l₂ := (List.perm_ext_iff_of_nodup n₁ n₂).mpr h
+  exact List.Perm.eq_of_pairwise (le := (· < ·)) (fun a b _ _ hab hba => by omega) h₁ h₂ hp
+
+/-- The combined index list `di ++ dci.map (· + L + 1)`: strictly ascending when both parts are
+and the first part stays `≤ L`. -/
+theorem blind_indexes_sorted (L : Nat) {di dci : List Nat} (h1 : di.Pairwise (· < ·))
+    (h2 : dci.Pairwise (· < ·)) (hL : ∀ i ∈ di, i < L + 1) :
+    (di ++ dci.map fun j => j + L + 1).Pairwise (· < ·) := by
+  rw [List.pairwise_append]
+  refine ⟨h1, ?_, ?_⟩
+  · rw [List.pairwise_map]
+    exact h2.imp (by intro a b h; omega)
+  · intro a ha b hb
+    obtain ⟨j, _, rfl⟩ := List.mem_map.mp hb
+    have := hL a ha
+    omega
+
+/-- **Index map.** Sorting and deduplicating the prover's combined index list gives the
+verifier's list: the two parts sorted and deduplicated separately (no hypothesis on `dci`,
+members of `di` at most `L`). In particular the combined list of two strictly ascending lists is
+left unchanged by `sortDedup`. -/
+theorem sortDedup_blind_indexes (L : Nat) (di dci : List Nat) (hL : ∀ i ∈ di, i < L + 1) :
+    sortDedup (di ++ dci.map fun j => j + L + 1)
+      = sortDedup di ++ (sortDedup dci).map fun j => j + L + 1 := by
+  apply strict_sorted_ext (sortDedup_sorted _)
+  · exact blind_indexes_sorted L (sortDedup_sorted _) (sortDedup_sorted _)
+      (fun i hi => hL i (mem_sortDedup.mp hi))
+  · intro i
+    simp only [mem_sortDedup, List.mem_append, List.mem_map]
+
+theorem blind_indexes_lt (L M : Nat) {di dci : List Nat} (h1 : ∀ i ∈ di, i < L)
+    (h2 : ∀ j ∈ dci, j < M) : ∀ i ∈ di ++ dci.map fun j => j + L + 1, i < L + 1 + M := by
+  intro i hi
+  rcases List.mem_append.mp hi with h | h
+  · have := h1 i h; omega
+  · obtain ⟨j, hj, rfl⟩ := List.mem_map.mp h
+    have := h2 j hj; omega
+
+/-- **The verifier's `M`.** With `U = (L + 1 + M) − (R1 + R2)` undisclosed positions the
+verifier recomputes `M` from `R1 + R2 + U` and `L`. -/
+theorem verifier_M (L M R1 R2 : Nat) (h1 : R1 ≤ L) (h2 : R2 ≤ M) (h64 : L + 1 < 2 ^ 64) :
+    uAdd? L 1 = some (L + 1) ∧
+      uSub? (R1 + R2 + (L + 1 + M - (R1 + R2))) (L + 1) = some M := by
+  unfold uAdd? uSub?
+  rw [if_pos h64, if_pos (by omega)]
+  exact ⟨rfl, by congr 1; omega⟩
+
+theorem verifier_uAdd_ok (L M : Nat) (dci : List Nat) (h2 : ∀ j ∈ dci, j < M)
+    (h64 : L + 1 + M < 2 ^ 64) : (dci.any fun j => (uAdd? j (L + 1)).isNone) = false := by
+  rw [List.any_eq_false]
+  intro j hj
+  have := h2 j hj
+  unfold uAdd?
+  rw [if_pos (by omega)]
+  simp
+
+/-- **The verifier's messages.** The scalars at the combined indexes of the prover's list
+`ms ++ blind :: cms` are the disclosed signer scalars followed by the disclosed committed
+scalars; position `L` (the blinding factor) is never among them. -/
+theorem blind_disclosed_scalars (ms cms : List S) (b : S) (D1 D2 : List Nat)
+    (h1 : ∀ i ∈ D1, i < ms.length) :
+    (D1 ++ D2.map fun j => j + ms.length + 1).map (fun i => (ms ++ b :: cms).getD i 0)
+      = D1.map (fun i => ms.getD i 0) ++ D2.map (fun j => cms.getD j 0) := by
+  rw [List.map_append, List.map_map]
+  congr 1
+  · apply List.map_congr_left
+    intro i hi
+    simp only [List.getD_eq_getElem?_getD, List.getElem?_append_left (h1 i hi)]
+  · apply List.map_congr_left
+    intro j _
+    simp only [Function.comp, List.getD_eq_getElem?_getD]
+    rw [List.getElem?_append_right (by omega)]
+    have : j + ms.length + 1 - ms.length = j + 1 := by omega
+    rw [this, List.getElem?_cons_succ]
+
+theorem blind_index_ne_L (L : Nat) {di dci : List Nat} (h1 : ∀ i ∈ di, i < L) :
+    L ∉ di ++ dci.map fun j => j + L + 1 := by
+  intro h
+  rcases List.mem_append.mp h with h | h
+  · have := h1 L h; omega
+  · obtain ⟨j, _, hj⟩ := List.mem_map.mp h; omega
+
+/-! ### `blind_proof_gen` / `blind_proof_verify` as wrappers of the core functions -/
+
+/-- What an `Ok` of `prepare_parameters` (with a blinding factor) means. -/
+theorem prepareParameters_ok_inv (cs : Suite G1) (msgs cmsgs : List Bytes) (n k : Nat) (b : S)
+    (apiId : Bytes) (allms : List S) (gens : Generators G1)
+    (h : prepareParameters env cs (some msgs) (some cmsgs) n k (some b) (some apiId)
+      = .ok (allms, gens)) :
+    ∃ ms cms g bg, messagesToScalar env cs msgs apiId = .ok ms ∧
+      messagesToScalar env cs cmsgs apiId = .ok cms ∧
+      Generators.create env cs n (some apiId) = .ok g ∧
+      Generators.create env cs k (some (Bytes.ofAscii "BLIND_" ++ apiId)) = .ok bg ∧
+      allms = ms ++ b :: cms ∧ gens = ⟨g.base, g.values ++ bg.values⟩ := by
+  unfold prepareParameters at h
+  simp only [Option.getD_some] at h
+  cases h1 : messagesToScalar env cs msgs apiId with
+  | err => rw [h1] at h; cases h
+  | panic => rw [h1] at h; cases h
+  | ok ms =>
+    rw [h1] at h; simp only at h
+    cases h2 : messagesToScalar env cs cmsgs apiId with
+    | err => rw [h2] at h; cases h
+    | panic => rw [h2] at h; cases h
+    | ok cms =>
+      rw [h2] at h; simp only at h
+      cases h3 : Generators.create env cs n (some apiId) with
+      | err => rw [h3] at h; cases h
+      | panic => rw [h3] at h; cases h
+      | ok g =>
+        rw [h3] at h; simp only at h
+        cases h4 : Generators.create env cs k (some (Bytes.ofAscii "BLIND_" ++ apiId)) with
+        | err => rw [h4] at h; cases h
+        | panic => rw [h4] at h; cases h
+        | ok bg =>
+          rw [h4] at h
+          simp only [Res.ok.injEq, Prod.mk.injEq] at h
+          exact ⟨ms, cms, g, bg, rfl, rfl, rfl, rfl, by rw [← h.1]; rfl, h.2.symm⟩
+
+/-- **Blind proof completeness, relative to core completeness.** `hcore` is the statement of
+core proof completeness (`C03.core_proof_complete`) for the combined index list
+`D = di ++ dci.map (· + L + 1)`; `P` is any extra property of the proof it delivers. -/
+theorem blind_proof_complete_of_core (cs : Suite G1) (pk : G2) (σ : Signature S G1)
+    (msgs cmsgs : List Bytes) (blind : Option S) (di dci diV dciV : List Nat)
+    (header ph : Option Bytes) (tape : List S) (P : PoKSignature S G1 → Prop)
+    (hver : verifyBlindSign env cs σ pk header (some msgs) (some cmsgs) blind = .ok ())
+    (hσ : Signature.fromBytes env (σ.toBytes env) = .ok σ)
+    (hdi : ∀ i ∈ di, i < msgs.length) (hdci : ∀ j ∈ dci, j < cmsgs.length)
+    (hdiL : di.length ≤ msgs.length) (hdciL : dci.length ≤ cmsgs.length)
+    (hdiV : sortDedup diV = sortDedup di) (hdciV : sortDedup dciV = sortDedup dci)
+    (h64 : msgs.length + 1 + cmsgs.length < 2 ^ 64)
+    (hcore : ∀ (gens : Generators G1) (allms : List S),
+      coreVerify env cs pk σ allms gens header (some cs.apiIdBlind) = .ok () →
+      allms.length = msgs.length + 1 + cmsgs.length →
+      ∃ π, coreProofGen env cs pk σ gens allms (di ++ dci.map fun j => j + msgs.length + 1)
+            header ph (some cs.apiIdBlind) tape = .ok π ∧
+        coreProofVerify env cs pk π gens header ph
+          ((sortDedup (di ++ dci.map fun j => j + msgs.length + 1)).map fun i => allms.getD i 0)
+          (sortDedup (di ++ dci.map fun j => j + msgs.length + 1)) (some cs.apiIdBlind) = .ok () ∧
+        π.mCap.length
+          = allms.length - (sortDedup (di ++ dci.map fun j => j + msgs.length + 1)).length ∧
+        P π) :
+    ∃ π, blindProofGen env cs pk (σ.toBytes env) header ph (some msgs) (some cmsgs)
+          (some di) (some dci) blind tape = .ok π ∧
+      blindProofVerify env cs π pk header ph (some msgs.length)
+          (some ((sortDedup di).map fun i => msgs.getD i []))
+          (some ((sortDedup dci).map fun j => cmsgs.getD j []))
+          (some diV) (some dciV) = .ok () ∧
+      π.mCap.length
+        = msgs.length + 1 + cmsgs.length - ((sortDedup di).length + (sortDedup dci).length) ∧
+      P π := by
+  unfold verifyBlindSign at hver
+  simp only [Option.getD_some] at hver
+  cases hpp : prepareParameters env cs (some msgs) (some cmsgs) (msgs.length + 1)
+      (cmsgs.length + 1) (some (blind.getD 0)) (some cs.apiIdBlind) with
+  | err => rw [hpp] at hver; cases hver
+  | panic => rw [hpp] at hver; cases hver
+  | ok r =>
+    obtain ⟨allms, gens⟩ := r
+    rw [hpp] at hver; simp only at hver
+    obtain ⟨ms, cms, g, bg, hms, hcms, hg, hbg, rfl, rfl⟩ :=
+      prepareParameters_ok_inv cs msgs cmsgs _ _ _ _ _ _ hpp
+    have hmsl := messagesToScalar_length cs _ _ ms hms
+    have hcmsl := messagesToScalar_length cs _ _ cms hcms
+    obtain ⟨π, hgen, hvf, hU, hP⟩ := hcore _ _ hver (by simp [hmsl, hcmsl]; omega)
+    have hsd := sortDedup_blind_indexes msgs.length di dci (fun i hi => by have := hdi i hi; omega)
+    have hR1 : (sortDedup di).length ≤ msgs.length := sortDedup_length_le hdi
+    have hR2 : (sortDedup dci).length ≤ cmsgs.length := sortDedup_length_le hdci
+    refine ⟨π, ?_, ?_, ?_, hP⟩
+    · unfold blindProofGen
+      rw [hσ]
+      simp only [Option.getD_some]
+      rw [if_neg (by omega), if_neg (by simpa using hdi), if_neg (by omega),
+        if_neg (by simpa using hdci), hpp]
+      exact hgen
+    · have hU' : π.mCap.length = msgs.length + 1 + cmsgs.length
+          - ((sortDedup di).length + (sortDedup dci).length) := by
+        rw [hU, hsd]; simp [hmsl, hcmsl]; omega
+      obtain ⟨ha, hs⟩ := verifier_M msgs.length cmsgs.length _ _ hR1 hR2 (by omega)
+      unfold blindProofVerify
+      simp only [Option.getD_some, hdiV, hdciV, ha, hU', hs]
+      rw [verifier_uAdd_ok msgs.length cmsgs.length _
+        (fun j hj => hdci j (mem_sortDedup.mp hj)) h64]
+      simp only [Bool.false_eq_true, if_false]
+      have hdm := mapRes_map_getD _ ([] : Bytes) (0 : S) msgs ms hms (sortDedup di)
+        (fun i hi => hdi i (mem_sortDedup.mp hi))
+      have hdcm := mapRes_map_getD _ ([] : Bytes) (0 : S) cmsgs cms hcms (sortDedup dci)
+        (fun i hi => hdci i (mem_sortDedup.mp hi))
+      rw [prepareParameters_eq cs _ _ _ _ none _ _ _ g bg hdm hdcm hg hbg]
+      simp only [List.nil_append]
+      rw [hsd, ← hmsl, blind_disclosed_scalars ms cms _ _ _
+        (fun i hi => by rw [hmsl]; exact hdi i (mem_sortDedup.mp hi))] at hvf
+      rw [← hmsl]
+      exact hvf
+    · rw [hU, hsd]; simp [hmsl, hcmsl]; omega
 
 end
 end Zk.Blind
